@@ -5,8 +5,10 @@ import (
 	"encoding/json"
 	"fmt"
 	"os"
+	"runtime"
 	"runtime/pprof"
 	"strconv"
+	"time"
 
 	"verif/sim/core"
 )
@@ -96,6 +98,47 @@ func main() {
 		pf := core.ProfileFor(os.Args[2], os.Args[3], seed)
 		p := core.Generate(pf, seed)
 		os.Stdout.Write(p.JSON())
+	case "runfile":
+		// run the plan of a replay file in this process (no coordinator, no
+		// limits) and print peak memory: for measuring the harness itself
+		b, err := os.ReadFile(os.Args[2])
+		if err != nil {
+			fmt.Println(err)
+			os.Exit(2)
+		}
+		var rf ReplayFile
+		if err := json.Unmarshal(b, &rf); err != nil || rf.Plan == nil {
+			fmt.Println("not a plan replay file")
+			os.Exit(2)
+		}
+		silenceStdout()
+		scratch, _ := os.MkdirTemp(scratchBase(), "runfile")
+		defer os.RemoveAll(scratch)
+		job := &Job{Prop: rf.Property, Tier: "quick", Seed: rf.Seed, Mode: rf.Mode, Plan: rf.Plan}
+		if f := os.Getenv("SIM_HEAPPROFILE"); f != "" {
+			go func() {
+				for {
+					time.Sleep(200 * time.Millisecond)
+					var ms runtime.MemStats
+					runtime.ReadMemStats(&ms)
+					if ms.HeapAlloc > 1200<<20 {
+						fh, _ := os.Create(f)
+						pprof.Lookup("heap").WriteTo(fh, 0)
+						fh.Close()
+						return
+					}
+				}
+			}()
+		}
+		res, _ := runJob(job, &core.Env{Scratch: scratch})
+		var ms runtime.MemStats
+		runtime.ReadMemStats(&ms)
+		fmt.Fprintf(realStdout, "stmts=%d images=%d violations=%d harness=%q heap_sys=%dMB total_alloc=%dMB\n", res.Stmts, res.Images, len(res.Violations), res.Harness, ms.HeapSys>>20, ms.TotalAlloc>>20)
+		if f := os.Getenv("SIM_MEMPROFILE"); f != "" {
+			fh, _ := os.Create(f)
+			pprof.Lookup("allocs").WriteTo(fh, 0)
+			fh.Close()
+		}
 	case "run":
 		if len(os.Args) < 4 {
 			usage()
